@@ -132,7 +132,7 @@ Qed.
 
 Lemma step_sim : forall fuel h os st o, R (IS h os) st -> fin_op o -> sim_goal fuel h os st o.
 Proof.
-  intros fuel h os st o HR Hfo. destruct o as [i|i c|i c|i c|i c|i|i p|i f|i p|i n|i|i n|z n|z n|i j|m].
+  intros fuel h os st o HR Hfo. destruct o as [i|i c|i c|i c|i c|i|i p|i f|i p|i n|i|i n|z n|z n|i j|m|e].
   - apply sim_next; exact HR.
   - apply sim_take; exact HR.
   - apply sim_peek; exact HR.
@@ -149,6 +149,7 @@ Proof.
   - intros ist' ob Hi _. cbn in *. inversion Hi; subst. eexists. split; [reflexivity|exact HR].
   - intros ist' ob Hi _. cbn in *. inversion Hi; subst. eexists. split; [reflexivity|exact HR].
   - apply sim_appendobj; exact HR.
+  - intros ist' ob Hi _. cbn in *. inversion Hi; subst. eexists. split; [reflexivity|exact HR].
   - intros ist' ob Hi _. cbn in *. inversion Hi; subst. eexists. split; [reflexivity|exact HR].
 Qed.
 
